@@ -130,6 +130,7 @@ def run(ctx):
         _sched.run_dfs(ctx, scn, dict(family="dfs-%s-%d-%s" % (kind, n, fail), kind=kind), judge, ctx.pick(120, 4000))
     handled_and_caught_families(ctx)
     cancelled_child_families(ctx)
+    crash_families(ctx)
 
 
 def handled_and_caught_families(ctx):
@@ -229,6 +230,42 @@ def cancelled_child_families(ctx):
             meta = dict(family="cancelled-child", child=cname, variant=variant, child_inside_fanout=cname != "sequential")
             ctx.count("family:cancelled-child"); ctx.count("child:" + variant)
             _sched.run_schedules(ctx, scn, meta, judge, ctx.pick(3, 10), ["c02cc", i], record_every=1)
+
+
+def crash_families(ctx):
+    """The engine dies and is restarted at every point of runs in which a Task with a Retrier launches a synchronous child (the first child fails, the second
+    is still running at the crash) or calls a function: whatever the restart does to the pending work (C04 decides whether outcomes are preserved), no
+    execution - parent or child - may END twice or have its terminal record changed.  A RUNNING notification repeated after a restart is not judged here."""
+    from lsfverif.checks import c04
+    child = {"StartAt": "W", "States": {"W": F.T("childwork", End=True)}}
+    launch = {"Type": "Task", "Resource": CHILD, "Parameters": {"StateMachineArn": "arn:aws:states:local:0123456789:stateMachine:child", "Input.$": "$"},
+              "Retry": [{"ErrorEquals": ["States.ALL"], "IntervalSeconds": 1, "MaxAttempts": 2, "BackoffRate": 1.0}], "End": True}
+    plain = dict(F.T("childwork"), Retry=[{"ErrorEquals": ["States.ALL"], "IntervalSeconds": 1, "MaxAttempts": 2, "BackoffRate": 1.0}], End=True)
+    funcs = dict(F.FUNCS, childwork=["seq", [["err", "Boom", "first attempt"], ["ok", {"done": 1}, {"latency": 3}]]])
+    i = 0
+    for name, parent, machines in (("retried-child-launch", {"StartAt": "L", "States": {"L": launch}}, True), ("retried-task", {"StartAt": "L", "States": {"L": plain}}, False)):
+        for store in ("json", "redis"):
+            ms = {"m": {"asl": parent}}
+            if machines:
+                ms["child"] = {"asl": child}
+            scn = {"machines": ms, "funcs": funcs, "starts": [{"machine": "m", "name": "e", "input": {"x": 1}}], "config": {"store": store} if store == "redis" else {}}
+            base = S.execute(scn, seed=ctx.seed)
+            n_steps = len(base.world.steps)
+            S.close(base)
+            for k in range(0, n_steps + 1):
+                i += 1
+                if not ctx.mine(i):
+                    continue
+                run = S.execute(scn, seed=ctx.seed, hooks=[c04.crash_hook(k)])
+                try:
+                    _sched.observe(ctx, run)
+                    ctx.count("family:crash-" + name); ctx.count("crash_points")
+                    ctx.distinct("schedules", [_sched.scn_key(scn), "crash", k])
+                    ctx.nontrivial([name, store, k])
+                    meta = dict(family="crash-" + name, crash_after_step=k, store=store)
+                    _sched.judge_rules(ctx, run, meta, "crash-%d" % k, ("N-second-terminal", "N-running-after-terminal", "R-terminal-record-changed"), None)
+                finally:
+                    S.close(run)
 
 
 def witnesses(ctx):
